@@ -22,6 +22,16 @@ CRS_WINDOWS = [
     ("EPSG:27700", -6, 50.2, 1.5, 58),
     ("EPSG:2193", 167.5, -46, 177.5, -35.5),
 ]
+# ellipsoid-only (datum-less) PROJ definitions next to the registered CRS they resemble: same projection parameters, different
+# transformation to WGS84 (no datum shift).  Both are used in the same process, in random order, through the same cached machinery.
+LOOKALIKES = [
+    ("+proj=tmerc +lat_0=49 +lon_0=-2 +k=0.9996012717 +x_0=400000 +y_0=-100000 +ellps=airy +units=m +no_defs", "EPSG:27700", (-6, 50.2, 1.5, 58)),
+    ("+proj=tmerc +lat_0=0 +lon_0=9 +k=1 +x_0=3500000 +y_0=0 +ellps=bessel +units=m +no_defs", "EPSG:31467", (7.6, 47.5, 10.4, 55)),
+    ("+proj=utm +zone=33 +ellps=intl +units=m +no_defs", "EPSG:23033", (12.5, 36, 17.5, 70)),
+    ("+proj=tmerc +lat_0=0 +lon_0=173 +k=0.9996 +x_0=1600000 +y_0=10000000 +ellps=GRS80 +units=m +no_defs", "EPSG:2193", (167.5, -46, 177.5, -35.5)),
+    ("+proj=laea +lat_0=52 +lon_0=10 +x_0=4321000 +y_0=3210000 +ellps=GRS80 +units=m +no_defs", "EPSG:3035", (-5, 38, 30, 65)),
+    ("+proj=sinu +lon_0=0 +R=6371007.181 +units=m +no_defs", "EPSG:6933", (-170, -75, 170, 75)),
+]
 DATUM_SHIFT = {"EPSG:27700"}
 GLOBAL_CRS = ("EPSG:4326", "EPSG:3857", "EPSG:6933")
 
